@@ -5,7 +5,7 @@ use crate::ep::{self, EchoStruct, Fv, Sv};
 use crate::gen::*;
 use crate::Server;
 use dsverif::live::Conn;
-use dsverif::util::{emit, g_bytes, g_list, g_opt, g_str, Rng};
+use dsverif::util::{emit, g_list, g_opt, Rng};
 use std::io::Write;
 
 pub const CAP: usize = ep::CAP_DEFAULT;
